@@ -60,6 +60,14 @@ var verifRoot = func() string {
 	return "/verif"
 }()
 
+// repoRoot is the tree under verification: /repo, or a scratch copy of it for mutation self-tests (VERIF_REPO).
+var repoRoot = func() string {
+	if r := os.Getenv("VERIF_REPO"); r != "" {
+		return r
+	}
+	return "/repo"
+}()
+
 var modelrunPath = verifRoot + "/ocaml/build/modelrun"
 
 // runModel evaluates the extracted model on the given case lines (sharded over processes).
